@@ -821,6 +821,10 @@ def run(ctx):
         "the in-process sweep reads the expansion shape only to select literals for compilation; literals it does not select are not judged by it",
     ]
 
+    # enum-level format attributes (added after seeded-defect misses; see c05_enum.py)
+    from . import c05_enum
+    c05_enum.run_enum_level(ctx)
+
     pre = prelude()
     nsh = ctx.pick(8, 16)
     res = l2.build_and_run(ctx, "flags", cases, nshards=nsh, prelude=pre)
